@@ -37,10 +37,13 @@ def run(prog, rep):
     else:
         f = fe[0]
         body, tr = f.body, Tracer(f.body)
+        # the walk-state flag: the bool local that is assigned constants at least 5 times (found by shape, not by name)
         dvc = None
         for l, decl in enumerate(body.locals):
-            if decl.get("name") == "did_visit_children":
-                dvc = l
+            if f.ty(decl["ty"]).k == "bool" and decl.get("name"):
+                ds = [d for d in body.defs().get(l, []) if d[2] == "assign" and d[3]["k"] == "use" and d[3]["op"]["k"] == "const"]
+                if len(ds) >= 5:
+                    dvc = l
         table = {}
         if dvc is None:
             rep.violation("C18.T", "anchor-lost:did_visit_children", f.loc(), "walk state flag not found")
